@@ -7,8 +7,10 @@ import sys
 import time
 
 ROOT = os.path.dirname(os.path.dirname(os.path.abspath(__file__)))
-EVIDENCE_DIR = os.path.join(ROOT, 'evidence')
-REPLAY_DIR = os.path.join(ROOT, 'replays')
+# runs against a patched scratch copy (tools/mutant.sh sets VERIF_OUT) must not touch the committed evidence
+_OUT = os.environ.get('VERIF_OUT') or ROOT
+EVIDENCE_DIR = os.path.join(_OUT, 'evidence')
+REPLAY_DIR = os.path.join(_OUT, 'replays')
 KF_FILE = os.path.join(ROOT, 'known_findings.json')
 
 DISCHARGED = 'discharged'
